@@ -82,14 +82,15 @@ type ComponentPlan struct {
 }
 
 type ScenarioProg struct {
-	SetupBehav    int             `json:"setup_b,omitempty"`
-	SetupSleepNs  int64           `json:"setup_sleep,omitempty"`
-	SetupCleanups []CleanupPlan   `json:"setup_cleanups,omitempty"`
-	SetupRegLate  bool            `json:"setup_reg_late,omitempty"` // register cleanups after the behaviour point (never reached if it stops)
-	Iter          []IterPlan      `json:"iter"`                     // plan of invocation i is Iter[i % len]
-	Rendezvous    int             `json:"rendezvous,omitempty"`     // bodies wait until this many overlap (C04 lower bound)
-	RendezvousNs  int64           `json:"rendezvous_timeout,omitempty"`
-	Components    []ComponentPlan `json:"components,omitempty"` // C20: combined scenario
+	SetupBehav       int             `json:"setup_b,omitempty"`
+	SetupSleepNs     int64           `json:"setup_sleep,omitempty"`
+	SetupLateErrorNs int64           `json:"setup_late_error,omitempty"` // a goroutine started by setup reports an error on the setup handle this long after setup returned
+	SetupCleanups    []CleanupPlan   `json:"setup_cleanups,omitempty"`
+	SetupRegLate     bool            `json:"setup_reg_late,omitempty"` // register cleanups after the behaviour point (never reached if it stops)
+	Iter             []IterPlan      `json:"iter"`                     // plan of invocation i is Iter[i % len]
+	Rendezvous       int             `json:"rendezvous,omitempty"`     // bodies wait until this many overlap (C04 lower bound)
+	RendezvousNs     int64           `json:"rendezvous_timeout,omitempty"`
+	Components       []ComponentPlan `json:"components,omitempty"` // C20: combined scenario
 }
 
 type H1Cfg struct {
@@ -468,6 +469,11 @@ func (h h1) Gen(prop, tier string, r *simrt.Rng) (any, simrt.Config) {
 			c.Prog.SetupCleanups = append(c.Prog.SetupCleanups, cp)
 		}
 		c.Prog.SetupRegLate = r.Intn(4) == 0
+	}
+	if (prop == "C02" || prop == "C03" || prop == "C01") && r.Intn(12) == 0 {
+		// setup leaves a goroutine behind that reports an error on the setup handle while iterations are running: the
+		// run has started, its iterations are run and counted as before
+		c.Prog.SetupLateErrorNs = r.Int63n(max(c.MaxDurationNs/2, 2)) + 1009
 	}
 	setupFailP := 20
 	if prop == "C06" || prop == "C05" || prop == "C08" {
